@@ -421,6 +421,19 @@ func (p *Parser) parseConstraintColumnList() ([]string, error) {
 func (p *Parser) parseSelectStatement() (ast.Statement, error) {
 	// We've already consumed the SELECT token in matchType
 
+	// Derived tables in FROM / JOIN re-enter this function without passing
+	// through parseExpression, so nesting depth is accounted for here as well.
+	p.depth++
+	defer func() { p.depth-- }()
+	if p.depth > MaxRecursionDepth {
+		return nil, goerrors.RecursionDepthLimitError(
+			p.depth,
+			MaxRecursionDepth,
+			models.Location{Line: 0, Column: 0},
+			"",
+		)
+	}
+
 	// Check for DISTINCT or ALL keyword
 	isDistinct := false
 	var distinctOnColumns []ast.Expression
